@@ -77,6 +77,20 @@ def r1(run):
                 pe = q.call_result_edges(b, p, ok=False)
                 po = q.call_result_edges(b, p, ok=True)
                 if not pe or not po:
+                    # `self.keyspace.persist(SyncAll).map_err(..)` as the function's tail expression: the caller receives persist's
+                    # own outcome (Ok and Err alike)
+                    def _is_p(x, depth=0):
+                        x = strip(x)
+                        if x[0] == "call" and q.same_call(x[1], p):
+                            return True
+                        if depth < 4 and x[0] == "call" and x[1].fn in ("core::result::Result::<T, E>::map_err", "core::result::Result::<T, E>::map") and x[2]:
+                            return _is_p(x[2][0], depth + 1)
+                        return False
+                    after = b.reachable_blocks([p.bb]) | {p.bb}
+                    tails = [(bb, e) for (bb, e, raw) in b.return_defs() if bb in after]
+                    if tails and all(_is_p(e) for (bb, e) in tails):
+                        run.ob(cons + "|persist-err-propagated", True, p.sp, "the function returns persist(SyncAll)'s own result (through map_err)")
+                        continue
                     run.ob(cons + "|persist-err-propagated", False, p.sp, "the result of persist(SyncAll) is not branched on: a failed fsync would be acknowledged",
                            reason="persist-error-dropped")
                     continue
